@@ -1041,6 +1041,7 @@ var seeds = [][]string{
 var notCore = []string{
 	"SetStrokeColor(rgba(0,64,0,128))", "SetStrokeJoiner(RoundJoin)", "SetDashes(-0.25, 0.75)", "SetFillRule(NonZero)", "ResetStyle()",
 	"DrawPath(0,0, M0 0L0.5 0)", "ReflectX()", "ReflectY()", "ReflectYAbout(1.5)", "ScaleAbout(2,0.5,1,1)", "ShearAbout(0,0.5,1,2)", "SetZIndex(0)",
+	"CubeTo(1,2,3,2,4,0)", "ArcTo(2,1,30,false,true,4,2)", "Arc(1,1,0,0,90)",
 }
 
 func letterSets() (full, core []int) {
@@ -1063,7 +1064,7 @@ func families(tier string) []fw.Family {
 	if s := os.Getenv("C15_DEPTH"); s != "" {
 		fmt.Sscan(s, &depth)
 	}
-	fs := []fw.Family{fitImageFamily(), historyFamily("full", full, nil, 0, depth, 3)}
+	fs := []fw.Family{fitImageFamily(), resizeFamily(), historyFamily("full", full, nil, 0, depth, 3)}
 	if tier == "thorough" {
 		fs = append(fs, historyFamily("core", core, nil, 5, 5, 0))
 		for _, s := range seeds {
@@ -1093,7 +1094,7 @@ func Prop() *fw.Property {
 			"state = one history (tree node), transition = its last call; every history is run on NewContext(recording renderer) and on NewContext(canvas.New(10,6)) and compared with the matrix/style stack model: renderer calls (count, order, z-index, path data bit-for-bit, style, matrix 1e-12), Context state after the history and after popping the whole stack and once more, Canvas replay = recorded calls in ascending z then draw order (exact, with the callers' paths edited afterwards), RenderViewTo/Transform/Clip/Fit; " +
 			"distinct_nontrivial = distinct canonical dumps (model state + recorded calls) among the unprefixed histories of <=3 calls and the prefixed ones with <=2 further calls",
 		Assumptions: []string{
-			"bounded depth and the fixed argument menu; gradients/patterns, SetStrokeCapper, SetCoordRect and curves (FitImage has its own family: 4 coordinate systems x 3 fits x 4 images x 3 rectangles x 3 views x coordinate view on/off) in the pending path are outside the alphabet",
+			"bounded depth and the fixed argument menu; gradients/patterns and SetStrokeCapper are outside the alphabet (FitImage has its own family: 4 coordinate systems x 3 fits x 4 images x 3 rectangles x 3 views x coordinate view on/off)",
 			"Path.MoveTo/LineTo (C10) build the expected pending path; image/color conversion of color.RGBA values is the identity",
 			"a recorded dash pattern counts as the requested one when the set of stroked arc-length intervals on every subpath is the same (1e-9) with dash lengths read in mm (SetDashes doc) or in stroke widths (canvas.ScaleDash, all renderers); the two readings differ and the statement does not choose: see the note:…(D20) outcome class; C15_DASH_UNIT=mm|width insists on one",
 			"renderer calls with an empty path or with neither fill nor stroke are ignored on both sides (the statement does not say whether they are made)",
